@@ -1,17 +1,1915 @@
+// C04 harness: stats / stats-by / timechart / bin results of the real siglens query path against
+// the aggregate computed directly (exact rationals) over exactly the matched events.
+//
+//   - datasets are generated from the seed (vhlib.Rng only): a "wild" measure field f (integers,
+//     dyadic floats, numeric strings, other strings, absent, duplicates), a dense numeric field d,
+//     a wild group field g (sparse / mixed type / absent), a dense small key k; several
+//     segmentations (flush every j events, forced rotation);
+//   - each dataset runs in its own worker process (fresh store), worker.go;
+//   - the property oracle compares every reported measure with the exact value (sets for groups and
+//     buckets); every query must come back without error (class stats_fails_on_sparse_group_field);
+//   - the same observations go to Coq case files where the model (Agg.v: merge over the actual
+//     blocks; group bucket as coded; Bucket.v: find_bucket) must reproduce them;
+//   - FindTimeRangeBucket is also driven directly on thousands of (start, end, step, ts);
+//   - known-defect inputs are generated in separate streams, one per class (known/C04.json).
 package main
 
 import (
+	"context"
+	"encoding/json"
 	"fmt"
+	"math"
+	"math/big"
 	"os"
+	"os/exec"
+	"path/filepath"
+	"regexp"
+	"sort"
 	"strconv"
+	"strings"
+	"sync"
+	"time"
+
+	"github.com/siglens/siglens/pkg/segment/aggregations"
+	"github.com/siglens/siglens/pkg/segment/structs"
+
+	"verifharness/vhlib"
 )
 
 func fmtFloat(x float64) string { return strconv.FormatFloat(x, 'g', -1, 64) }
+
+const T0 = uint64(1700000000000)
+const listLimit = 100 // sutils.MAX_SPL_LIST_SIZE
+const FS = 1024
+
+// ---------- values ----------
+type Val struct {
+	K string `json:"k"`           // abs | int | flt | numstr | str | bool | null
+	I int64  `json:"i,omitempty"` // int value / bool (0,1)
+	Q int64  `json:"q,omitempty"` // flt, numstr: value * 1024
+	S string `json:"s,omitempty"` // numstr text, str text
+}
+
+func (v Val) present() bool { return v.K != "abs" && v.K != "null" }
+func (v Val) numeric() bool { return v.K == "int" || v.K == "flt" || v.K == "numstr" }
+func (v Val) rat() *big.Rat {
+	switch v.K {
+	case "int":
+		return new(big.Rat).SetInt64(v.I)
+	case "flt", "numstr":
+		return big.NewRat(v.Q, FS)
+	}
+	return nil
+}
+func dyadicText(q int64) string { // exact decimal text of q/1024
+	return new(big.Rat).SetFrac64(q, FS).FloatString(10)
+}
+func trimZeros(s string) string {
+	if strings.Contains(s, ".") {
+		s = strings.TrimRight(s, "0")
+		s = strings.TrimSuffix(s, ".")
+	}
+	return s
+}
+func (v Val) json() (string, bool) {
+	switch v.K {
+	case "abs":
+		return "", false
+	case "null":
+		return "null", true
+	case "int":
+		return strconv.FormatInt(v.I, 10), true
+	case "flt":
+		return trimZeros(dyadicText(v.Q)), true
+	case "numstr", "str":
+		b, _ := json.Marshal(v.S)
+		return string(b), true
+	case "bool":
+		if v.I == 1 {
+			return "true", true
+		}
+		return "false", true
+	}
+	return "", false
+}
+
+// display form of a group key as the API prints it
+func (v Val) keyText() string {
+	switch v.K {
+	case "int":
+		return strconv.FormatInt(v.I, 10)
+	case "flt":
+		return trimZeros(dyadicText(v.Q))
+	case "numstr", "str":
+		return v.S
+	case "bool":
+		if v.I == 1 {
+			return "true"
+		}
+		return "false"
+	}
+	return ""
+}
+func (v Val) coqM() string {
+	switch v.K {
+	case "int":
+		return "MInt " + vhlib.CoqZ(v.I)
+	case "flt":
+		return "MFlt " + vhlib.CoqZ(v.Q)
+	case "numstr":
+		return "MNumStr " + coqStr(v.S) + " " + vhlib.CoqZ(v.Q)
+	case "str":
+		return "MStr " + coqStr(v.S)
+	}
+	return "MAbs"
+}
+func coqStr(s string) string { return "(" + vhlib.CoqStr(s) + "%N)" }
+
+type Ev struct {
+	ID    int    `json:"id"`
+	Ts    uint64 `json:"ts"`
+	F     Val    `json:"f"`
+	D     Val    `json:"d"`
+	G     Val    `json:"g"`
+	K     int64  `json:"kk"`
+	Batch int    `json:"b"`
+	Seg   int    `json:"seg"`
+}
+
+func (e Ev) doc() string {
+	var sb strings.Builder
+	fmt.Fprintf(&sb, "{\"timestamp\":%d,\"id\":%d,\"k\":%d", e.Ts, e.ID, e.K)
+	for _, p := range []struct {
+		n string
+		v Val
+	}{{"f", e.F}, {"d", e.D}, {"g", e.G}} {
+		if s, ok := p.v.json(); ok {
+			fmt.Fprintf(&sb, ",%q:%s", p.n, s)
+		}
+	}
+	sb.WriteString("}")
+	return sb.String()
+}
+
+type Dataset struct {
+	Stream  string   `json:"stream"`
+	FKind   string   `json:"fkind"`
+	GKind   string   `json:"gkind"`
+	Evs     []Ev     `json:"evs"`
+	Modes   []string `json:"modes"` // per batch: "f" flush, "r" flush+rotate
+	Start   uint64   `json:"start"`
+	End     uint64   `json:"end"`
+	SpanS   int      `json:"span_s"`
+	Queries []Query  `json:"queries"`
+}
+
+// Query kinds:
+//
+//	stats   : no group; Field = measured field; VL (values/list), TS (earliest/latest), Filter (id >= n)
+//	group   : stats ... by By (g | k | nosuch | g,k)
+//	tc      : timechart span count, sum(d)
+//	tcby    : timechart span count by k
+//	bin     : bin span timestamp | stats count by timestamp
+//	perc    : stats perc50(d), perc90(d)
+type Query struct {
+	Kind   string `json:"kind"`
+	Text   string `json:"text"`
+	Field  string `json:"field,omitempty"`
+	VL     bool   `json:"vl,omitempty"`
+	TS     bool   `json:"ts,omitempty"`
+	Filter int    `json:"filter,omitempty"`
+	By     string `json:"by,omitempty"`
+	Start  uint64 `json:"start"`
+	End    uint64 `json:"end"`
+	Expect string `json:"expect,omitempty"` // known class this query is expected to hit ("" = none)
+}
+
+// ---------- generation ----------
+var strPool = []string{"x", "yy", "zq", "wk", "kx", "qq-z", "x y"[:1] + "w"}
+
+func genF(r *vhlib.Rng, kind string) Val {
+	switch kind {
+	case "ints":
+		return Val{K: "int", I: int64(r.Range(-20, 40))}
+	case "dups":
+		return Val{K: "int", I: int64(r.Range(1, 3))}
+	case "sparse":
+		if r.Chance(40) {
+			return Val{K: "abs"}
+		}
+		return Val{K: "int", I: int64(r.Range(-9, 30))}
+	case "floats":
+		if r.Chance(50) {
+			return Val{K: "int", I: int64(r.Range(-10, 20))}
+		}
+		return Val{K: "flt", Q: int64(r.Range(-10, 20))*FS + int64(vhlib.Pick(r, []int{128, 256, 512, 768}))}
+	case "numstr":
+		switch r.Intn(4) {
+		case 0:
+			n := int64(r.Range(100, 130))
+			return Val{K: "numstr", S: strconv.FormatInt(n, 10), Q: n * FS}
+		case 1:
+			q := int64(r.Range(200, 220))*FS + 512
+			return Val{K: "numstr", S: trimZeros(dyadicText(q)), Q: q}
+		case 2:
+			return Val{K: "abs"}
+		}
+		return Val{K: "int", I: int64(r.Range(-5, 50))}
+	case "mixed":
+		switch r.Intn(5) {
+		case 0:
+			return Val{K: "str", S: vhlib.Pick(r, strPool)}
+		case 1:
+			return Val{K: "abs"}
+		case 2:
+			return Val{K: "flt", Q: int64(r.Range(0, 9))*FS + 512}
+		}
+		return Val{K: "int", I: int64(r.Range(-5, 50))}
+	case "strs":
+		if r.Chance(20) {
+			return Val{K: "abs"}
+		}
+		return Val{K: "str", S: vhlib.Pick(r, strPool)}
+	}
+	return Val{K: "abs"} // "absent"
+}
+
+func genD(r *vhlib.Rng) Val {
+	if r.Chance(30) {
+		return Val{K: "flt", Q: int64(r.Range(-8, 30))*FS + int64(vhlib.Pick(r, []int{256, 512, 768}))}
+	}
+	return Val{K: "int", I: int64(r.Range(-15, 60))}
+}
+
+func genG(r *vhlib.Rng, kind string) Val {
+	switch kind {
+	case "dense":
+		return Val{K: "str", S: vhlib.Pick(r, []string{"a", "b", "c", "dd"})}
+	case "sparse":
+		if r.Chance(35) {
+			return Val{K: "abs"}
+		}
+		return Val{K: "str", S: vhlib.Pick(r, []string{"a", "b", "c"})}
+	case "mixed":
+		switch r.Intn(5) {
+		case 0:
+			return Val{K: "int", I: int64(r.Range(7, 9))}
+		case 1:
+			return Val{K: "bool", I: int64(r.Intn(2))}
+		case 2:
+			return Val{K: "null"}
+		}
+		return Val{K: "str", S: vhlib.Pick(r, []string{"a", "b"})}
+	case "ints":
+		return Val{K: "int", I: int64(r.Range(1, 4))}
+	}
+	return Val{K: "abs"}
+}
+
+const statsBase = "count, count(%[1]s), sum(%[1]s), min(%[1]s), max(%[1]s), avg(%[1]s), range(%[1]s), dc(%[1]s)"
+const statsVL = ", values(%[1]s), list(%[1]s)"
+const statsTS = ", earliest(%[1]s), latest(%[1]s)"
+
+func statsList(field string, vl, ts bool) string {
+	s := fmt.Sprintf(statsBase, field)
+	if vl {
+		s += fmt.Sprintf(statsVL, field)
+	}
+	if ts {
+		s += fmt.Sprintf(statsTS, field)
+	}
+	return s
+}
+
+// layout: events -> batches (flush every j events), some batches end with a rotation
+func layout(r *vhlib.Rng, evs []Ev) []string {
+	var modes []string
+	n := len(evs)
+	style := r.Intn(4) // 0: one batch; 1: flush every j; 2: rotate every j; 3: random mix
+	j := r.Range(1, 7)
+	if style == 0 {
+		j = n
+	}
+	b, seg := 0, 0
+	for i := 0; i < n; {
+		m := j
+		if style == 3 {
+			m = r.Range(1, 6)
+		}
+		if i+m > n {
+			m = n - i
+		}
+		for x := i; x < i+m; x++ {
+			evs[x].Batch, evs[x].Seg = b, seg
+		}
+		mode := "f"
+		if style == 2 || (style == 3 && r.Chance(40)) {
+			mode = "r"
+		}
+		modes = append(modes, mode)
+		if mode == "r" {
+			seg++
+		}
+		b++
+		i += m
+	}
+	return modes
+}
+
+func batchIdx(evs []Ev, b int) []int {
+	var ix []int
+	for i := range evs {
+		if evs[i].Batch == b {
+			ix = append(ix, i)
+		}
+	}
+	return ix
+}
+
+func genMain(r *vhlib.Rng, thorough, mixedG bool) *Dataset {
+	fk := vhlib.Pick(r, []string{"ints", "dups", "sparse", "floats", "numstr", "mixed", "strs", "absent"})
+	gk := vhlib.Pick(r, []string{"dense", "sparse", "ints", "absent", "dense", "sparse"})
+	if mixedG {
+		gk = "mixed"
+	}
+	n := r.Range(6, 28)
+	if thorough && r.Chance(20) {
+		n = r.Range(40, 120)
+	}
+	ds := &Dataset{Stream: "main", FKind: fk, GKind: gk, SpanS: vhlib.Pick(r, []int{2, 3, 4, 5, 7, 10, 60})}
+	if mixedG {
+		// a by-field of mixed JSON types: must never make a query fail; the same value stored under two
+		// types in different blocks splits its group (known class), so this is a stream of its own
+		ds.Stream = "mixed_group_key"
+	}
+	ts := T0 + uint64(r.Range(0, 3000))
+	for i := 0; i < n; i++ {
+		ds.Evs = append(ds.Evs, Ev{ID: i, Ts: ts, F: genF(r, fk), D: genD(r), G: genG(r, gk), K: int64(r.Range(1, 3))})
+		ts += uint64(r.Range(1, 2500))
+	}
+	ds.Modes = layout(r, ds.Evs)
+	// keep the main stream off the known-defect inputs (each has its own stream):
+	nb := len(ds.Modes)
+	anyNum := false
+	for _, e := range ds.Evs {
+		anyNum = anyNum || e.F.numeric()
+	}
+	for b := 0; b < nb; b++ {
+		ix := batchIdx(ds.Evs, b)
+		// (1) IsNumeric: a batch without any numeric f (only strings, or f absent from all its events), while numbers exist elsewhere
+		hasP, hasN := false, false
+		for _, i := range ix {
+			hasP = hasP || ds.Evs[i].F.present()
+			hasN = hasN || ds.Evs[i].F.numeric()
+		}
+		_ = hasP
+		if anyNum && !hasN {
+			ds.Evs[ix[r.Intn(len(ix))]].F = Val{K: "int", I: int64(r.Range(1, 9))}
+		}
+		// (2) group key: a numeric / bool key only in batches that also hold a string key
+		if gk == "mixed" {
+			hasS, hasO := false, false
+			for _, i := range ix {
+				hasS = hasS || ds.Evs[i].G.K == "str"
+				hasO = hasO || ds.Evs[i].G.K == "int" || ds.Evs[i].G.K == "bool"
+			}
+			if hasO && !hasS {
+				ds.Evs[ix[0]].G = Val{K: "str", S: "a"}
+			}
+		}
+		// (3) sparse group key: every batch has at least one event with the key
+		if gk == "sparse" {
+			has := false
+			for _, i := range ix {
+				has = has || ds.Evs[i].G.present()
+			}
+			if !has {
+				ds.Evs[ix[0]].G = Val{K: "str", S: "a"}
+			}
+		}
+	}
+	// (4) earliest/latest: the first and the last event carry f (unless f is absent everywhere)
+	if fk != "absent" && fk != "strs" {
+		for _, i := range []int{0, n - 1} {
+			if !ds.Evs[i].F.present() || (anyNum && !ds.Evs[i].F.numeric() && len(batchIdx(ds.Evs, ds.Evs[i].Batch)) == 1) {
+				ds.Evs[i].F = Val{K: "int", I: int64(r.Range(1, 9))}
+			}
+		}
+	} else if fk == "strs" {
+		for _, i := range []int{0, n - 1} {
+			if !ds.Evs[i].F.present() {
+				ds.Evs[i].F = Val{K: "str", S: "x"}
+			}
+		}
+	}
+	last := ds.Evs[n-1].Ts
+	span := uint64(ds.SpanS) * 1000
+	ds.Start = T0 - uint64(r.Range(0, 5000))
+	ds.End = last + 1 + uint64(r.Range(0, int(2*span)))
+	q := func(kind, text string, f func(*Query)) {
+		qq := Query{Kind: kind, Text: text, Start: ds.Start, End: ds.End}
+		if f != nil {
+			f(&qq)
+		}
+		ds.Queries = append(ds.Queries, qq)
+	}
+	q("stats", "* | stats "+statsList("f", false, false), func(x *Query) { x.Field = "f" })
+	q("stats", "* | stats "+statsList("f", true, true), func(x *Query) { x.Field, x.VL, x.TS = "f", true, true })
+	q("stats", "* | eval zz=1 | stats "+statsList("f", true, true), func(x *Query) { x.Field, x.VL, x.TS = "f", true, true })
+	q("stats", "* | stats "+statsList("d", true, false), func(x *Query) { x.Field, x.VL = "d", true })
+	q("stats", "* | eval zz=1 | stats "+statsList("f", true, false), func(x *Query) { x.Field, x.VL = "f", true })
+	if fk == "ints" || fk == "dups" || fk == "floats" { // a filter can leave a block without any numeric f
+		cut := r.Range(1, n-1)
+		q("stats", fmt.Sprintf("id>=%d | stats %s", cut, statsList("f", true, false)), func(x *Query) { x.Field, x.VL, x.Filter = "f", true, cut })
+	}
+	q("group", "* | stats "+statsList("d", true, false)+" by g", func(x *Query) { x.Field, x.VL, x.By = "d", true, "g" })
+	q("group", "* | stats "+statsList("d", false, false)+" by k", func(x *Query) { x.Field, x.By = "d", "k" })
+	q("group", "* | stats count, sum(d), avg(d) by nosuch", func(x *Query) { x.Field, x.By = "d", "nosuch" })
+	q("group", "* | stats count, sum(d), min(d) by g, k", func(x *Query) { x.Field, x.By = "d", "g,k" })
+	q("tc", fmt.Sprintf("* | timechart span=%ds count, sum(d)", ds.SpanS), nil)
+	q("tcby", fmt.Sprintf("* | timechart span=%ds count by k", ds.SpanS), func(x *Query) { x.By = "k" })
+	q("tcby", fmt.Sprintf("* | timechart span=%ds count by g", ds.SpanS), func(x *Query) { x.By = "g" })
+	q("bin", fmt.Sprintf("* | bin span=%ds timestamp | stats count by timestamp", ds.SpanS), nil)
+	q("perc", "* | stats perc50(d), perc90(d)", func(x *Query) { x.Field = "d" })
+	if mixedG {
+		for i := range ds.Queries {
+			if ds.Queries[i].Kind == "group" || ds.Queries[i].Kind == "tcby" {
+				ds.Queries[i].Expect = "group_key_split_by_stored_type"
+			}
+		}
+	}
+	return ds
+}
+
+// ---------- known-defect streams ----------
+func mkEvs(r *vhlib.Rng, n int) []Ev {
+	var evs []Ev
+	ts := T0 + uint64(r.Range(0, 900))
+	for i := 0; i < n; i++ {
+		evs = append(evs, Ev{ID: i, Ts: ts, F: Val{K: "int", I: int64(r.Range(1, 30))}, D: Val{K: "int", I: int64(r.Range(1, 30))}, G: Val{K: "str", S: vhlib.Pick(r, []string{"a", "b"})}, K: int64(r.Range(1, 2))})
+		ts += uint64(r.Range(1, 2000))
+	}
+	return evs
+}
+func setLayout(evs []Ev, sizes []int, modes []string) {
+	i, seg := 0, 0
+	for b, m := range sizes {
+		for x := 0; x < m; x++ {
+			evs[i].Batch, evs[i].Seg = b, seg
+			i++
+		}
+		if modes[b] == "r" {
+			seg++
+		}
+	}
+}
+
+func genKnown(r *vhlib.Rng, class string) *Dataset {
+	ds := &Dataset{Stream: class, FKind: "ints", GKind: "dense", SpanS: vhlib.Pick(r, []int{3, 4, 7})}
+	n := r.Range(6, 12)
+	evs := mkEvs(r, n)
+	h := n / 2
+	sizes, modes := []int{h, n - h}, []string{"r", "f"}
+	fin := func(qs ...Query) *Dataset {
+		setLayout(evs, sizes, modes)
+		ds.Evs, ds.Modes = evs, modes
+		if ds.Start == 0 {
+			ds.Start, ds.End = T0-1000, evs[n-1].Ts+1+uint64(r.Range(0, 5000))
+		}
+		for _, q := range qs {
+			q.Start, q.End, q.Expect = ds.Start, ds.End, class
+			ds.Queries = append(ds.Queries, q)
+		}
+		return ds
+	}
+	switch class {
+	case "timechart_end_boundary_stray_bucket":
+		// the last event sits exactly on the inclusive end of the query range
+		span := uint64(ds.SpanS) * 1000
+		ds.Start = T0
+		ds.End = evs[n-1].Ts
+		if (ds.End-ds.Start)%span == 0 { // keep end - span unaligned (otherwise the stray bucket merges with an aligned one)
+			evs[n-1].Ts++
+			ds.End++
+		}
+		return fin(Query{Kind: "tc", Text: fmt.Sprintf("* | timechart span=%ds count, sum(d)", ds.SpanS)})
+	case "groupby_count_avg_use_row_count":
+		// measured field absent in some rows of a group
+		for i := range evs {
+			if i%3 == 1 {
+				evs[i].D = Val{K: "abs"}
+			}
+		}
+		return fin(Query{Kind: "group", Text: "* | stats " + statsList("d", true, false) + " by g", Field: "d", VL: true, By: "g"})
+	case "groupby_sum_skips_string_typed_numbers":
+		// a segment whose measured column also holds a non-numeric string: its numbers are not summed by the group path
+		evs[h].D = Val{K: "str", S: "zq"}
+		return fin(Query{Kind: "group", Text: "* | stats count, sum(d) by g", Field: "d", By: "g"})
+	case "group_key_split_by_stored_type":
+		// the same JSON number as key: all-integer column in segment 1, mixed column in segment 2
+		for i := range evs {
+			evs[i].G = Val{K: "int", I: 5}
+		}
+		evs[n-1].G = Val{K: "str", S: "x"}
+		return fin(Query{Kind: "group", Text: "* | stats count, sum(d) by g", Field: "d", By: "g"})
+	case "sparse_group_null_bucket_partial":
+		// segment 1 has the key column (with gaps), segment 2 has no such column at all
+		evs[0].G = Val{K: "abs"}
+		for i := h; i < n; i++ {
+			evs[i].G = Val{K: "abs"}
+		}
+		return fin(Query{Kind: "group", Text: "* | stats count, sum(d) by g", Field: "d", By: "g"})
+	case "sum_avg_zero_when_first_merged_record_non_numeric":
+		for i := h; i < n; i++ {
+			evs[i].F = Val{K: "str", S: vhlib.Pick(r, strPool)}
+		}
+		return fin(Query{Kind: "stats", Text: "* | stats " + statsList("f", false, false), Field: "f"},
+			Query{Kind: "stats", Text: "* | stats " + statsList("f", true, false), Field: "f", VL: true})
+	case "int64_sum_wraps":
+		for i := range evs {
+			evs[i].F = Val{K: "int", I: int64(1)<<62 + int64(r.Range(0, 5))}
+		}
+		return fin(Query{Kind: "stats", Text: "* | stats " + statsList("f", false, false), Field: "f"})
+	case "earliest_latest_from_event_without_field":
+		evs[n-1].F = Val{K: "abs"}
+		evs[0].F = Val{K: "abs"}
+		return fin(Query{Kind: "stats", Text: "* | stats " + statsList("f", true, true), Field: "f", VL: true, TS: true})
+	case "dc_counts_number_forms_separately":
+		// the integer 5 in an all-integer segment and in a segment whose column also holds a string
+		evs[0].F = Val{K: "int", I: 5}
+		evs[h].F = Val{K: "int", I: 5}
+		evs[n-1].F = Val{K: "str", S: "x"}
+		return fin(Query{Kind: "stats", Text: "* | stats " + statsList("f", true, false), Field: "f", VL: true})
+	}
+	return fin()
+}
+
+var knownClasses = []string{
+	"timechart_end_boundary_stray_bucket", "groupby_count_avg_use_row_count", "groupby_sum_skips_string_typed_numbers",
+	"group_key_split_by_stored_type", "sparse_group_null_bucket_partial", "sum_avg_zero_when_first_merged_record_non_numeric",
+	"int64_sum_wraps", "earliest_latest_from_event_without_field", "dc_counts_number_forms_separately",
+}
+
+// ---------- running ----------
+func runDataset(dir string, ds *Dataset) ([]WObs, error) {
+	_ = os.RemoveAll(dir)
+	data := filepath.Join(dir, "data")
+	if err := os.MkdirAll(data, 0o755); err != nil {
+		return nil, err
+	}
+	var ops []WOp
+	for b, mode := range ds.Modes {
+		op := WOp{Kind: "ingest", Flush: true, Rotate: mode == "r"}
+		for _, i := range batchIdx(ds.Evs, b) {
+			op.Docs = append(op.Docs, ds.Evs[i].doc())
+		}
+		ops = append(ops, op)
+	}
+	nIngest := len(ops)
+	for _, q := range ds.Queries {
+		ops = append(ops, WOp{Kind: "query", Text: q.Text, Start: q.Start, End: q.End})
+	}
+	sp, op := filepath.Join(dir, "script.json"), filepath.Join(dir, "obs.json")
+	b, _ := json.Marshal(ops)
+	_ = os.WriteFile(sp, b, 0o644)
+	ctx, cancel := context.WithTimeout(context.Background(), 150*time.Second)
+	defer cancel()
+	cmd := exec.CommandContext(ctx, os.Args[0], "worker", data, sp, op)
+	out, err := cmd.CombinedOutput()
+	if err != nil {
+		tail := string(out)
+		if len(tail) > 500 {
+			tail = tail[len(tail)-500:]
+		}
+		return nil, fmt.Errorf("worker: %v: %s", err, tail)
+	}
+	ob, err := os.ReadFile(op)
+	if err != nil {
+		return nil, err
+	}
+	var o []WObs
+	if err := json.Unmarshal(ob, &o); err != nil || len(o) != len(ops) {
+		return nil, fmt.Errorf("bad observation file")
+	}
+	for i := 0; i < nIngest; i++ {
+		if o[i].Err != "" || o[i].Ingested != len(ops[i].Docs) {
+			return nil, fmt.Errorf("ingest batch %d: %d of %d accepted, err=%q", i, o[i].Ingested, len(ops[i].Docs), o[i].Err)
+		}
+	}
+	return o[nIngest:], nil
+}
+
+// ---------- observed values ----------
+// a measure value as an exact rational when it is a number
+func obsRat(v WValue) (*big.Rat, bool) {
+	if v.K != "n" && v.K != "s" {
+		return nil, false
+	}
+	s := strings.TrimSpace(v.S)
+	if s == "" {
+		return nil, false
+	}
+	c := s[0]
+	if !(c >= '0' && c <= '9') && c != '-' && c != '+' && c != '.' {
+		return nil, false
+	}
+	f, err := strconv.ParseFloat(s, 64)
+	if err != nil || math.IsInf(f, 0) || math.IsNaN(f) {
+		return nil, false
+	}
+	if rr, ok := new(big.Rat).SetString(s); ok && !strings.ContainsAny(s, "eE") {
+		return rr, true // decimal text: exact
+	}
+	return new(big.Rat).SetFloat64(f), true
+}
+func obsList(v WValue) []string {
+	if v.K == "l" {
+		return v.L
+	}
+	s := strings.TrimSpace(v.S)
+	if strings.HasPrefix(s, "[") && strings.HasSuffix(s, "]") {
+		s = s[1 : len(s)-1]
+		if s == "" {
+			return nil
+		}
+		return strings.Fields(s)
+	}
+	if v.K == "n" && (s == "0" || s == "") {
+		return nil
+	}
+	if v.K == "nil" {
+		return nil
+	}
+	return []string{s}
+}
+
+// canonical form of one element of values()/list(): numbers by value
+func canonItem(s string) string {
+	if rr, ok := obsRat(WValue{K: "s", S: s}); ok {
+		return "#" + rr.RatString()
+	}
+	return "$" + s
+}
+func (v Val) item() (string, bool) {
+	switch v.K {
+	case "int", "flt", "numstr":
+		return "#" + v.rat().RatString(), true
+	case "str":
+		return "$" + v.S, true
+	}
+	return "", false
+}
+
+// ---------- exact aggregate (the property's own words) ----------
+type Exact struct {
+	Rows, CountF, NumCnt   int
+	Sum                    *big.Rat
+	Min, Max               string // canonical item ("" = none)
+	MinR, MaxR             *big.Rat
+	Values                 map[string]bool
+	List                   []string
+	Earliest, Latest       string // canonical item of the value at the least / greatest timestamp among events that HAVE the field
+	EarliestAny, LatestAny Val    // value (possibly absent) at the least / greatest timestamp of all matched events
+	SumAbsInt              *big.Int
+	Distinct               int
+}
+
+func field(e Ev, name string) Val {
+	switch name {
+	case "f":
+		return e.F
+	case "d":
+		return e.D
+	case "g":
+		return e.G
+	case "k":
+		return Val{K: "int", I: e.K}
+	}
+	return Val{K: "abs"}
+}
+
+func exactOf(evs []Ev, name string) *Exact {
+	x := &Exact{Sum: new(big.Rat), Values: map[string]bool{}, SumAbsInt: new(big.Int)}
+	var strMin, strMax string
+	hasStr := false
+	var eTs, lTs uint64
+	first := true
+	var aE, aL uint64
+	for _, e := range evs {
+		v := field(e, name)
+		x.Rows++
+		if first || e.Ts < aE {
+			aE, x.EarliestAny = e.Ts, v
+		}
+		if first || e.Ts > aL {
+			aL, x.LatestAny = e.Ts, v
+		}
+		first = false
+		it, ok := v.item()
+		if !ok {
+			continue
+		}
+		if x.CountF == 0 || e.Ts < eTs {
+			eTs, x.Earliest = e.Ts, it
+		}
+		if x.CountF == 0 || e.Ts > lTs {
+			lTs, x.Latest = e.Ts, it
+		}
+		x.CountF++
+		x.Values[it] = true
+		x.List = append(x.List, it)
+		if v.numeric() {
+			rr := v.rat()
+			x.NumCnt++
+			x.Sum.Add(x.Sum, rr)
+			if x.MinR == nil || rr.Cmp(x.MinR) < 0 {
+				x.MinR = rr
+			}
+			if x.MaxR == nil || rr.Cmp(x.MaxR) > 0 {
+				x.MaxR = rr
+			}
+			if v.K == "int" {
+				a := big.NewInt(v.I)
+				x.SumAbsInt.Add(x.SumAbsInt, a.Abs(a))
+			}
+		} else {
+			if !hasStr || v.S < strMin {
+				strMin = v.S
+			}
+			if !hasStr || v.S > strMax {
+				strMax = v.S
+			}
+			hasStr = true
+		}
+	}
+	if x.MinR != nil { // numbers before strings, for min and for max
+		x.Min, x.Max = "#"+x.MinR.RatString(), "#"+x.MaxR.RatString()
+	} else if hasStr {
+		x.Min, x.Max = "$"+strMin, "$"+strMax
+	}
+	x.Distinct = len(x.Values)
+	return x
+}
+
+// ---------- the oracle ----------
+type checker struct {
+	sum *vhlib.Summary
+	mu  *sync.Mutex
+	ds  *Dataset
+	di  int
+	q   Query
+}
+
+func (c *checker) fail(class, detail string) {
+	c.mu.Lock()
+	defer c.mu.Unlock()
+	c.sum.Fail(class, fmt.Sprintf("dataset %d (%s f=%s g=%s) query %q: %s", c.di, c.ds.Stream, c.ds.FKind, c.ds.GKind, c.q.Text, detail),
+		map[string]interface{}{"dataset": c.ds, "query": c.q})
+}
+
+func ratEq(a, b *big.Rat) bool { return a != nil && b != nil && a.Cmp(b) == 0 }
+func ratClose(a, b *big.Rat) bool { // relative 1e-12 (float division / summation order)
+	if a == nil || b == nil {
+		return false
+	}
+	d := new(big.Rat).Sub(a, b)
+	d.Abs(d)
+	m := new(big.Rat).Abs(b)
+	m.Mul(m, big.NewRat(1, 1000000000000))
+	return d.Cmp(m) <= 0
+}
+
+func getM(row WRow, name string) (WValue, bool) {
+	v, ok := row.M[name]
+	return v, ok
+}
+
+// compare one group / the whole result with the exact aggregate; prefix = "stats" or "groupby"
+// returns the names of the measures that differ
+func (c *checker) measures(row WRow, x *Exact, fld string, vl, ts bool, suffix string) map[string]string {
+	bad := map[string]string{}
+	req := requested(c.q.Text)
+	defer func() {
+		for name := range bad {
+			if !req[name] {
+				delete(bad, name)
+			}
+		}
+	}()
+	num := func(name string, want *big.Rat, close bool) {
+		v, ok := getM(row, name+suffix)
+		if !ok {
+			bad[name] = "missing"
+			return
+		}
+		got, isNum := obsRat(v)
+		if !isNum {
+			bad[name] = fmt.Sprintf("got %v want %s", v, want.RatString())
+			return
+		}
+		if (close && !ratClose(got, want)) || (!close && !ratEq(got, want)) {
+			bad[name] = fmt.Sprintf("got %s want %s", got.RatString(), want.RatString())
+		}
+	}
+	zero := new(big.Rat)
+	num("count(*)", big.NewRat(int64(x.Rows), 1), false)
+	num("count("+fld+")", big.NewRat(int64(x.CountF), 1), false)
+	num("sum("+fld+")", x.Sum, false)
+	if x.NumCnt > 0 {
+		num("avg("+fld+")", new(big.Rat).Quo(x.Sum, big.NewRat(int64(x.NumCnt), 1)), true)
+		num("range("+fld+")", new(big.Rat).Sub(x.MaxR, x.MinR), false)
+	} else {
+		num("avg("+fld+")", zero, false)
+		num("range("+fld+")", zero, false)
+	}
+	item := func(name, want string) {
+		v, ok := getM(row, name+suffix)
+		if !ok {
+			bad[name] = "missing"
+			return
+		}
+		got := canonItem(v.S)
+		if v.K == "nil" {
+			got = ""
+		}
+		if want == "" {
+			if got != "#0" && got != "" && got != "$" {
+				bad[name] = fmt.Sprintf("got %s want none", got)
+			}
+			return
+		}
+		if got != want {
+			bad[name] = fmt.Sprintf("got %s want %s", got, want)
+		}
+	}
+	item("min("+fld+")", x.Min)
+	item("max("+fld+")", x.Max)
+	if vl {
+		if v, ok := getM(row, "values("+fld+")"+suffix); !ok {
+			bad["values"] = "missing"
+		} else {
+			got := map[string]bool{}
+			dup := false
+			for _, s := range obsList(v) {
+				ci := canonItem(s)
+				dup = dup || got[ci]
+				got[ci] = true
+			}
+			if len(got) != len(x.Values) || dup {
+				bad["values"] = fmt.Sprintf("got %v want %v", keys(got), keys(x.Values))
+			} else {
+				for k := range x.Values {
+					if !got[k] {
+						bad["values"] = fmt.Sprintf("got %v want %v", keys(got), keys(x.Values))
+					}
+				}
+			}
+		}
+		if v, ok := getM(row, "list("+fld+")"+suffix); !ok {
+			bad["list"] = "missing"
+		} else {
+			var got []string
+			for _, s := range obsList(v) {
+				got = append(got, canonItem(s))
+			}
+			want := append([]string{}, x.List...)
+			sort.Strings(got)
+			sort.Strings(want)
+			if len(want) > listLimit {
+				// list() keeps 100 values (MAX_SPL_LIST_SIZE, the SPL limit): any 100 of the values
+				cnt := map[string]int{}
+				for _, w := range want {
+					cnt[w]++
+				}
+				ok := len(got) == listLimit
+				for _, g := range got {
+					cnt[g]--
+					ok = ok && cnt[g] >= 0
+				}
+				if !ok {
+					bad["list"] = fmt.Sprintf("got %d values, not %d of the %d values of the field", len(got), listLimit, len(want))
+				}
+			} else if strings.Join(got, "\x00") != strings.Join(want, "\x00") {
+				bad["list"] = fmt.Sprintf("got %v want %v", got, want)
+			}
+		}
+	}
+	if ts {
+		item("earliest("+fld+")", x.Earliest)
+		item("latest("+fld+")", x.Latest)
+	}
+	// distinct count: exact below 50 distinct values, 2 % above (HLL log2m=16; observed only)
+	if v, ok := getM(row, "cardinality("+fld+")"+suffix); ok {
+		got, isNum := obsRat(v)
+		tol := 0
+		if x.Distinct >= 50 {
+			tol = (x.Distinct*2 + 99) / 100
+		}
+		if !isNum {
+			bad["dc"] = "not a number"
+		} else {
+			g, _ := got.Float64()
+			if math.Abs(g-float64(x.Distinct)) > float64(tol) {
+				bad["dc"] = fmt.Sprintf("got %s want %d +- %d", got.RatString(), x.Distinct, tol)
+			}
+		}
+	}
+	return bad
+}
+
+var measureRx = regexp.MustCompile(`\b(count|sum|min|max|avg|range|dc|values|list|earliest|latest)\(([a-z]+)\)`)
+
+// names (as used in the bad-map) of the measures a query text asks for
+func requested(text string) map[string]bool {
+	req := map[string]bool{}
+	i := strings.Index(text, "stats ")
+	if i < 0 {
+		return req
+	}
+	body := text[i+6:]
+	if j := strings.Index(body, " by "); j >= 0 {
+		body = body[:j]
+	}
+	for _, m := range measureRx.FindAllStringSubmatch(body, -1) {
+		switch m[1] {
+		case "dc":
+			req["dc"] = true
+		case "values", "list":
+			req[m[1]] = true
+		default:
+			req[m[1]+"("+m[2]+")"] = true
+		}
+	}
+	for _, tok := range strings.Split(body, ",") {
+		if strings.TrimSpace(tok) == "count" {
+			req["count(*)"] = true
+		}
+	}
+	return req
+}
+
+func keys(m map[string]bool) []string {
+	var k []string
+	for x := range m {
+		k = append(k, x)
+	}
+	sort.Strings(k)
+	return k
+}
+
+func matched(ds *Dataset, q Query) []Ev {
+	var out []Ev
+	for _, e := range ds.Evs {
+		if e.Ts < q.Start || e.Ts > q.End {
+			continue
+		}
+		if q.Filter > 0 && e.ID < q.Filter {
+			continue
+		}
+		out = append(out, e)
+	}
+	return out
+}
+
+// is the distinct count well defined for this field of this dataset (one textual / binary form per number,
+// no non-numeric string next to numbers)
+func dcClean(evs []Ev, fld string) bool {
+	forms := map[string]string{}
+	hasStr, hasNum := false, false
+	for _, e := range evs {
+		v := field(e, fld)
+		if v.K == "str" || v.K == "numstr" {
+			hasStr = true // a string-typed value turns the stored column of its block into strings
+		}
+		if v.K == "int" || v.K == "flt" {
+			hasNum = true
+		}
+		if v.numeric() {
+			k := v.rat().RatString()
+			if f, ok := forms[k]; ok && f != v.K {
+				return false
+			}
+			forms[k] = v.K
+		}
+	}
+	return !(hasStr && hasNum)
+}
+
+func bySuffix(bad map[string]string) string {
+	var k []string
+	for x, d := range bad {
+		k = append(k, x+": "+d)
+	}
+	sort.Strings(k)
+	return strings.Join(k, "; ")
+}
+func measureClass(prefix string, bad map[string]string) (string, string) {
+	var k []string
+	for x := range bad {
+		k = append(k, x)
+	}
+	sort.Strings(k)
+	name := k[0]
+	name = strings.NewReplacer("(*)", "_all", "(f)", "", "(d)", "", "(", "_", ")", "").Replace(name)
+	return prefix + "_" + name + "_mismatch", bySuffix(bad)
+}
+
+func groupKeyOf(e Ev, by string) (string, bool) {
+	// ok=false: the event has no value for (one of) the by-field(s)
+	parts := strings.Split(by, ",")
+	var ks []string
+	all := true
+	for _, p := range parts {
+		v := field(e, p)
+		if !v.present() && p != "k" {
+			all = false
+		}
+		ks = append(ks, v.keyText())
+	}
+	return strings.Join(ks, "\x1f"), all
+}
+
+func segHasCol(ds *Dataset, seg int, by string) bool {
+	for _, p := range strings.Split(by, ",") {
+		if p == "k" {
+			continue
+		}
+		has := false
+		for _, e := range ds.Evs {
+			if e.Seg == seg && field(e, p).K != "abs" {
+				has = true
+			}
+		}
+		if !has {
+			return false
+		}
+	}
+	return true
+}
+
+func (c *checker) evalQuery(o WObs) {
+	ds, q := c.ds, c.q
+	c.mu.Lock()
+	c.sum.Eval(fmt.Sprintf("%d/%s", c.di, q.Text), len(o.Rows) > 0)
+	c.sum.Count("query/" + q.Kind)
+	c.mu.Unlock()
+	if o.Err != "" {
+		cls := "stats_query_fails"
+		if q.Kind == "group" || q.Kind == "tcby" || q.Kind == "tc" || q.Kind == "bin" {
+			cls = "stats_fails_on_sparse_group_field"
+		}
+		c.fail(cls, "query returned an error: "+o.Err)
+		return
+	}
+	evs := matched(ds, q)
+	switch q.Kind {
+	case "stats":
+		c.evalStats(o, evs)
+	case "group":
+		c.evalGroup(o, evs)
+	case "tc":
+		c.evalTimechart(o, evs)
+	case "tcby":
+		c.evalTimechartBy(o, evs)
+	case "bin":
+		c.evalBin(o, evs)
+	case "perc":
+		c.evalPerc(o, evs)
+	}
+}
+
+func (c *checker) evalStats(o WObs, evs []Ev) {
+	q := c.q
+	if len(o.Rows) != 1 {
+		if len(evs) == 0 && len(o.Rows) == 0 {
+			return
+		}
+		c.fail("stats_row_count", fmt.Sprintf("%d result rows for a stats without by-clause", len(o.Rows)))
+		return
+	}
+	x := exactOf(evs, q.Field)
+	bad := c.measures(o.Rows[0], x, q.Field, q.VL, q.TS, "")
+	if !dcClean(evs, q.Field) && q.Expect != "dc_counts_number_forms_separately" {
+		delete(bad, "dc")
+		c.mu.Lock()
+		c.sum.Count("dc_unchecked_mixed_forms")
+		c.mu.Unlock()
+	}
+	if len(bad) == 0 {
+		return
+	}
+	// signatures of the known classes (each only in its own stream)
+	switch q.Expect {
+	case "sum_avg_zero_when_first_merged_record_non_numeric":
+		if onlyKeys(bad, "sum(f)", "avg(f)") && gotZero(o.Rows[0], "sum(f)") && gotZero(o.Rows[0], "avg(f)") {
+			c.fail(q.Expect, "numbers exist in the older segment, the newest segment holds only strings: "+bySuffix(bad))
+			return
+		}
+	case "int64_sum_wraps":
+		if onlyKeys(bad, "sum(f)", "avg(f)") {
+			c.fail(q.Expect, bySuffix(bad))
+			return
+		}
+	case "earliest_latest_from_event_without_field":
+		if onlyKeys(bad, "earliest(f)", "latest(f)") {
+			c.fail(q.Expect, "the first / last matched event has no f: "+bySuffix(bad))
+			return
+		}
+	case "dc_counts_number_forms_separately":
+		if onlyKeys(bad, "dc") {
+			c.fail(q.Expect, bySuffix(bad))
+			return
+		}
+	}
+	cls, det := measureClass("stats", bad)
+	c.fail(cls, det)
+}
+
+func onlyKeys(bad map[string]string, ks ...string) bool {
+	for k := range bad {
+		ok := false
+		for _, x := range ks {
+			ok = ok || x == k
+		}
+		if !ok {
+			return false
+		}
+	}
+	return len(bad) > 0
+}
+func gotZero(row WRow, name string) bool {
+	v, ok := row.M[name]
+	if !ok {
+		return false
+	}
+	r, isNum := obsRat(v)
+	return isNum && r.Sign() == 0
+}
+
+func (c *checker) evalGroup(o WObs, evs []Ev) {
+	q := c.q
+	want := map[string][]Ev{}
+	var null []Ev
+	for _, e := range evs {
+		k, ok := groupKeyOf(e, q.By)
+		if !ok {
+			null = append(null, e)
+			continue
+		}
+		want[k] = append(want[k], e)
+	}
+	seen := map[string]bool{}
+	nullRows := 0
+	for _, row := range o.Rows {
+		k := strings.Join(row.G, "\x1f")
+		if seen[k] {
+			if q.Expect == "group_key_split_by_stored_type" {
+				c.fail(q.Expect, fmt.Sprintf("group key %q appears in two result rows", k))
+			} else {
+				c.fail("group_key_appears_twice", fmt.Sprintf("group key %q appears in two result rows", k))
+			}
+			return
+		}
+		seen[k] = true
+	}
+	for _, row := range o.Rows {
+		k := strings.Join(row.G, "\x1f")
+		ge, ok := want[k]
+		if !ok {
+			// a row for events that lack (one of) the by-field(s): legal when it holds exactly those events
+			isNull := false
+			for _, g := range row.G {
+				isNull = isNull || g == ""
+			}
+			if !isNull {
+				c.fail("group_unexpected_key", fmt.Sprintf("result has group %q, no matched event has that key", k))
+				return
+			}
+			nullRows++
+			continue
+		}
+		x := exactOf(ge, q.Field)
+		bad := c.measures(row, x, q.Field, q.VL, false, "")
+		if !dcClean(ge, q.Field) {
+			delete(bad, "dc")
+		}
+		if len(bad) == 0 {
+			continue
+		}
+		switch q.Expect {
+		case "groupby_count_avg_use_row_count":
+			if onlyKeys(bad, "count(d)", "avg(d)") {
+				c.fail(q.Expect, fmt.Sprintf("group %q has rows without d: %s", k, bySuffix(bad)))
+				return
+			}
+		case "groupby_sum_skips_string_typed_numbers":
+			if onlyKeys(bad, "sum(d)", "avg(d)", "count(d)") {
+				c.fail(q.Expect, fmt.Sprintf("group %q: %s", k, bySuffix(bad)))
+				return
+			}
+		}
+		cls, det := measureClass("groupby", bad)
+		c.fail(cls, fmt.Sprintf("group %q: %s", k, det))
+		return
+	}
+	for k := range want {
+		if !seen[k] {
+			c.fail("group_key_missing", fmt.Sprintf("group %q (%d events) is not in the result", k, len(want[k])))
+			return
+		}
+	}
+	// events without the by-field: either all dropped or all in the null row(s)
+	if len(null) > 0 && nullRows > 0 && !strings.Contains(q.By, ",") {
+		cnt := 0
+		for _, row := range o.Rows {
+			if len(row.G) == 1 && row.G[0] == "" {
+				if r, ok := obsRat(row.M["count(*)"]); ok {
+					f, _ := r.Float64()
+					cnt = int(f)
+				}
+			}
+		}
+		if cnt != len(null) {
+			cls := "group_null_row_partial"
+			if q.Expect == "sparse_group_null_bucket_partial" {
+				cls = q.Expect
+			}
+			c.fail(cls, fmt.Sprintf("%d matched events lack %s; the empty-key row counts %d of them (the others are dropped)", len(null), q.By, cnt))
+		}
+	}
+}
+
+func parseU(s string) (uint64, bool) {
+	u, err := strconv.ParseUint(s, 10, 64)
+	return u, err == nil
+}
+
+func (c *checker) evalTimechart(o WObs, evs []Ev) {
+	ds, q := c.ds, c.q
+	span := uint64(ds.SpanS) * 1000
+	type agg struct {
+		n   int
+		sum *big.Rat
+	}
+	want := map[uint64]*agg{}
+	for _, e := range evs {
+		b := q.Start + (e.Ts-q.Start)/span*span // the aligned bucket whose span contains the timestamp
+		if want[b] == nil {
+			want[b] = &agg{sum: new(big.Rat)}
+		}
+		want[b].n++
+		if e.D.numeric() {
+			want[b].sum.Add(want[b].sum, e.D.rat())
+		}
+	}
+	seen := map[uint64]bool{}
+	for _, row := range o.Rows {
+		if len(row.G) != 1 {
+			c.fail("timechart_row_shape", fmt.Sprintf("row keys %v", row.G))
+			return
+		}
+		b, ok := parseU(row.G[0])
+		if !ok || seen[b] {
+			c.fail("timechart_bucket_key", fmt.Sprintf("bucket key %q unparsable or repeated", row.G[0]))
+			return
+		}
+		seen[b] = true
+		cnt, _ := obsRat(row.M["count(*)"])
+		w := want[b]
+		if w == nil {
+			if cnt != nil && cnt.Sign() == 0 {
+				continue // an empty bucket row is fine
+			}
+			stray := (b-q.Start)%span != 0 || b+span <= q.Start || b > q.End
+			cls := "timechart_event_in_wrong_bucket"
+			if q.Expect == "timechart_end_boundary_stray_bucket" && b == q.End-span {
+				cls = q.Expect
+			}
+			c.fail(cls, fmt.Sprintf("range [%d,%d] span %d ms: bucket %d (unaligned=%v) holds %v events; no matched event has its timestamp in [%d,%d)",
+				q.Start, q.End, span, b, stray, cnt, b, b+span))
+			return
+		}
+		s, _ := obsRat(row.M["sum(d)"])
+		if cnt == nil || cnt.Cmp(big.NewRat(int64(w.n), 1)) != 0 || s == nil || s.Cmp(w.sum) != 0 {
+			cls := "timechart_count_mismatch"
+			if q.Expect == "timechart_end_boundary_stray_bucket" {
+				cls = q.Expect
+			}
+			c.fail(cls, fmt.Sprintf("bucket %d: count %v sum %v, want %d and %s", b, cnt, s, w.n, w.sum.RatString()))
+			return
+		}
+	}
+	for b, w := range want {
+		if !seen[b] {
+			cls := "timechart_bucket_missing"
+			if q.Expect == "timechart_end_boundary_stray_bucket" {
+				cls = q.Expect
+			}
+			c.fail(cls, fmt.Sprintf("bucket %d with %d events is not in the result", b, w.n))
+			return
+		}
+	}
+}
+
+func (c *checker) evalTimechartBy(o WObs, evs []Ev) {
+	ds, q := c.ds, c.q
+	span := uint64(ds.SpanS) * 1000
+	want := map[uint64]map[string]int{}
+	vals := map[string]bool{}
+	for _, e := range evs {
+		v := field(e, q.By)
+		if v.K == "abs" && !segHasCol(ds, e.Seg, q.By) {
+			// by-field column absent from the whole segment: see sparse_group_null_bucket_partial; not judged here
+			continue
+		}
+		b := q.Start + (e.Ts-q.Start)/span*span
+		if want[b] == nil {
+			want[b] = map[string]int{}
+		}
+		k := v.keyText()
+		if !v.present() {
+			k = "<nil>"
+		}
+		want[b][k]++
+		vals[k] = true
+	}
+	if len(vals) > 10 {
+		return // the default limit=10 folds the rest into "other"
+	}
+	for _, row := range o.Rows {
+		if len(row.G) != 1 {
+			c.fail("timechart_row_shape", fmt.Sprintf("row keys %v", row.G))
+			return
+		}
+		b, ok := parseU(row.G[0])
+		if !ok {
+			c.fail("timechart_bucket_key", fmt.Sprintf("bucket key %q", row.G[0]))
+			return
+		}
+		for name, v := range row.M {
+			if !strings.HasPrefix(name, "count(*)") {
+				continue
+			}
+			k := strings.TrimPrefix(strings.TrimPrefix(name, "count(*)"), ": ")
+			got, _ := obsRat(v)
+			w := 0
+			if want[b] != nil {
+				w = want[b][k]
+			}
+			if name == "count(*)" { // column without a by-value: only present with absent-everywhere by-field
+				continue
+			}
+			if got == nil || got.Cmp(big.NewRat(int64(w), 1)) != 0 {
+				c.fail("timechart_by_count_mismatch", fmt.Sprintf("bucket %d, %s=%q: count %v, want %d", b, q.By, k, got, w))
+				return
+			}
+		}
+	}
+	rows := map[uint64]WRow{}
+	for _, row := range o.Rows {
+		b, _ := parseU(row.G[0])
+		rows[b] = row
+	}
+	for b, m := range want {
+		row, ok := rows[b]
+		for k, n := range m {
+			if !ok {
+				c.fail("timechart_bucket_missing", fmt.Sprintf("bucket %d (%s=%q: %d events) is not in the result", b, q.By, k, n))
+				return
+			}
+			if _, has := row.M["count(*): "+k]; !has {
+				c.fail("timechart_by_value_missing", fmt.Sprintf("bucket %d has no column for %s=%q (%d events)", b, q.By, k, n))
+				return
+			}
+		}
+	}
+}
+
+// bin: the origin of the bucket grid is not part of the property (siglens truncates relative to Go's
+// zero time); required: keys on one grid of width span, every event counted in the bucket whose
+// span contains its timestamp
+func (c *checker) evalBin(o WObs, evs []Ev) {
+	span := uint64(c.ds.SpanS) * 1000
+	var ks []uint64
+	got := map[uint64]int{}
+	for _, row := range o.Rows {
+		b, ok := parseU(strings.Join(row.G, ""))
+		cnt, _ := obsRat(row.M["count(*)"])
+		if _, dup := got[b]; !ok || dup || cnt == nil || !cnt.IsInt() {
+			c.fail("bin_bucket_mismatch", fmt.Sprintf("bin row %v count %v: key unparsable or repeated", row.G, cnt))
+			return
+		}
+		got[b] = int(cnt.Num().Int64())
+		ks = append(ks, b)
+	}
+	sort.Slice(ks, func(i, j int) bool { return ks[i] < ks[j] })
+	for _, k := range ks {
+		if (k-ks[0])%span != 0 {
+			c.fail("bin_bucket_mismatch", fmt.Sprintf("bin keys %d and %d are not on one grid of width %d", ks[0], k, span))
+			return
+		}
+	}
+	want := map[uint64]int{}
+	for _, e := range evs {
+		i := sort.Search(len(ks), func(i int) bool { return ks[i] > e.Ts })
+		if i == 0 || e.Ts-ks[i-1] >= span {
+			c.fail("bin_bucket_mismatch", fmt.Sprintf("no bin bucket contains the event at %d (span %d, keys %v)", e.Ts, span, ks))
+			return
+		}
+		want[ks[i-1]]++
+	}
+	for _, k := range ks {
+		if want[k] != got[k] {
+			c.fail("bin_bucket_mismatch", fmt.Sprintf("bin bucket %d counts %d events, %d have their timestamp in [%d,%d)", k, got[k], want[k], k, k+span))
+			return
+		}
+	}
+}
+
+func (c *checker) evalPerc(o WObs, evs []Ev) {
+	if len(o.Rows) != 1 {
+		return
+	}
+	var xs []float64
+	for _, e := range evs {
+		if e.D.numeric() {
+			f, _ := e.D.rat().Float64()
+			xs = append(xs, f)
+		}
+	}
+	sort.Float64s(xs)
+	n := len(xs)
+	if n == 0 {
+		return
+	}
+	for _, p := range []struct {
+		name string
+		p    float64
+	}{{"perc50(d)", 0.5}, {"perc90(d)", 0.9}} {
+		v, ok := o.Rows[0].M[p.name]
+		got, isNum := obsRat(v)
+		if !ok || !isNum {
+			c.fail("perc_missing", p.name)
+			return
+		}
+		g, _ := got.Float64()
+		// rank window: +-1 rank, +-1 % of n (t-digest compression 100; observed only)
+		slack := 1 + n/100
+		lo := int(math.Floor(p.p*float64(n-1))) - slack
+		hi := int(math.Ceil(p.p*float64(n-1))) + slack
+		if lo < 0 {
+			lo = 0
+		}
+		if hi > n-1 {
+			hi = n - 1
+		}
+		if g < xs[lo]-1e-9 || g > xs[hi]+1e-9 {
+			c.fail("perc_outside_rank_window", fmt.Sprintf("%s = %v, exact values at ranks %d..%d are %v..%v (n=%d)", p.name, g, lo, hi, xs[lo], xs[hi], n))
+			return
+		}
+	}
+}
+
+// ---------- Coq terms ----------
+func coqOval(s string, isNil bool) string {
+	if isNil {
+		return "ONum 0"
+	}
+	if rr, ok := obsRat(WValue{K: "s", S: s}); ok {
+		sc := new(big.Rat).Mul(rr, big.NewRat(FS, 1))
+		if sc.IsInt() {
+			return "ONum " + coqBig(sc.Num())
+		}
+		return "OStr " + coqStr("not-dyadic:"+s)
+	}
+	return "OStr " + coqStr(s)
+}
+func coqBig(z *big.Int) string {
+	if z.Sign() < 0 {
+		return "(" + z.String() + ")"
+	}
+	return z.String()
+}
+func coqQ(v WValue) string {
+	rr, ok := obsRat(v)
+	if !ok {
+		return "(1 # 3)%Q" // never equal to a model value built from dyadic inputs and small counts by accident
+	}
+	if strings.ContainsAny(v.S, "eE") || true {
+		// the float64 the API printed, exactly
+		f, _ := strconv.ParseFloat(strings.TrimSpace(v.S), 64)
+		rr = new(big.Rat).SetFloat64(f)
+	}
+	return fmt.Sprintf("(%s # %s)%%Q", coqBig(rr.Num()), rr.Denom().String())
+}
+func coqOvalM(row WRow, name string) string {
+	v, ok := row.M[name]
+	if !ok {
+		return "OStr " + coqStr("missing")
+	}
+	return coqOval(v.S, v.K == "nil")
+}
+func coqOvalList(row WRow, name string) string {
+	v, ok := row.M[name]
+	if !ok {
+		return "[OStr " + coqStr("missing") + "]"
+	}
+	var it []string
+	for _, s := range obsList(v) {
+		it = append(it, coqOval(s, false))
+	}
+	return vhlib.CoqList(it)
+}
+func coqCount(row WRow, name string) string {
+	if r, ok := obsRat(row.M[name]); ok && r.IsInt() {
+		return coqBig(r.Num())
+	}
+	return "(-1)"
+}
+func coqEvent(e Ev, fld string) string {
+	return fmt.Sprintf("(%d, %s)", e.Ts, field(e, fld).coqM())
+}
+
+// blocks of the matched events in merge order: newest segment first (getAllSegmentsInQuery sorts by
+// time, descending), batches of a segment in ingest order; for guarded inputs the order is irrelevant
+// (C04_segmentation_irrelevant_guarded), for the IsNumeric stream it is what decides the result
+func coqBlocks(ds *Dataset, evs []Ev, fld string) string {
+	maxSeg := 0
+	for _, e := range evs {
+		if e.Seg > maxSeg {
+			maxSeg = e.Seg
+		}
+	}
+	var blocks []string
+	for seg := maxSeg; seg >= 0; seg-- {
+		byBatch := map[int][]string{}
+		var order []int
+		for _, e := range evs {
+			if e.Seg != seg {
+				continue
+			}
+			if _, ok := byBatch[e.Batch]; !ok {
+				order = append(order, e.Batch)
+			}
+			byBatch[e.Batch] = append(byBatch[e.Batch], coqEvent(e, fld))
+		}
+		for _, b := range order {
+			blocks = append(blocks, vhlib.CoqList(byBatch[b]))
+		}
+	}
+	return vhlib.CoqList(blocks)
+}
+
+func coqStatsCase(ds *Dataset, q Query, o WObs) (string, bool) {
+	if o.Err != "" || len(o.Rows) != 1 {
+		return "", false
+	}
+	row := o.Rows[0]
+	f := q.Field
+	evs := matched(ds, q)
+	if q.VL && len(evs) > listLimit {
+		return "", false // list() truncation at MAX_SPL_LIST_SIZE is outside the model
+	}
+	// which path answers the query: ingest-time .sst records only for match-all, fully enclosed, no values/list/time measures
+	// raw-record path: the time functions run for every matched record; pipeline path (after eval): only
+	// when the query has earliest/latest
+	wt := q.VL || q.TS || q.Filter > 0
+	if strings.Contains(q.Text, "eval") {
+		wt = q.TS
+	}
+	obs := fmt.Sprintf("mkO %s %s (%s) %s (%s) (%s) (%s) %s %s %s %s (%s) (%s)", vhlib.CoqBool(wt),
+		coqCount(row, "count("+f+")"), coqOvalM(row, "sum("+f+")"), coqQ(row.M["avg("+f+")"]),
+		coqOvalM(row, "min("+f+")"), coqOvalM(row, "max("+f+")"), coqOvalM(row, "range("+f+")"),
+		vhlib.CoqBool(q.VL), coqOvalList(row, "values("+f+")"), coqOvalList(row, "list("+f+")"),
+		vhlib.CoqBool(q.TS), coqOvalM(row, "earliest("+f+")"), coqOvalM(row, "latest("+f+")"))
+	return "(" + coqBlocks(ds, evs, f) + ",\n    " + obs + ")", true
+}
+
+func coqGroupCase(ds *Dataset, q Query, o WObs) (string, bool) {
+	if o.Err != "" || strings.Contains(q.By, ",") || q.By == "nosuch" {
+		return "", false
+	}
+	evs := matched(ds, q)
+	maxSeg := 0
+	for _, e := range evs {
+		if e.Seg > maxSeg {
+			maxSeg = e.Seg
+		}
+	}
+	var segs []string
+	for seg := 0; seg <= maxSeg; seg++ {
+		var items []string
+		for _, e := range evs {
+			if e.Seg != seg {
+				continue
+			}
+			v := field(e, q.By)
+			k := "None"
+			if v.present() {
+				k = "Some " + coqStr(v.keyText())
+			}
+			items = append(items, fmt.Sprintf("(%s, %s)", k, coqEvent(e, q.Field)))
+		}
+		segs = append(segs, fmt.Sprintf("(%s, %s)", vhlib.CoqBool(segHasCol(ds, seg, q.By)), vhlib.CoqList(items)))
+	}
+	var rows []string
+	f := q.Field
+	req := requested(q.Text)
+	full := req["avg("+f+")"] && req["min("+f+")"] && req["max("+f+")"] && req["range("+f+")"] && req["count("+f+")"]
+	for _, row := range o.Rows {
+		if len(row.G) != 1 {
+			return "", false
+		}
+		vl := q.VL
+		rows = append(rows, fmt.Sprintf("(%s, mkOG %s %s %s (%s) %s (%s) (%s) (%s) %s %s %s)", coqStr(row.G[0]), vhlib.CoqBool(full),
+			coqCount(row, "count(*)"), coqCount(row, "count("+f+")"), coqOvalM(row, "sum("+f+")"), coqQ(row.M["avg("+f+")"]),
+			coqOvalM(row, "min("+f+")"), coqOvalM(row, "max("+f+")"), coqOvalM(row, "range("+f+")"),
+			vhlib.CoqBool(vl), coqOvalList(row, "values("+f+")"), coqOvalList(row, "list("+f+")")))
+	}
+	return "(" + vhlib.CoqList(segs) + ",\n    " + vhlib.CoqList(rows) + ")", true
+}
+
+func coqTimechartCase(ds *Dataset, q Query, o WObs) (string, bool) {
+	if o.Err != "" {
+		return "", false
+	}
+	var evs []string
+	for _, e := range matched(ds, q) {
+		sc := new(big.Rat)
+		if e.D.numeric() {
+			sc.Mul(e.D.rat(), big.NewRat(FS, 1))
+		}
+		evs = append(evs, fmt.Sprintf("(%d, %s)", e.Ts, coqBig(sc.Num())))
+	}
+	var rows []string
+	for _, row := range o.Rows {
+		b, ok := parseU(strings.Join(row.G, ""))
+		if !ok {
+			return "", false
+		}
+		s := "(-1)"
+		if r, ok := obsRat(row.M["sum(d)"]); ok {
+			sc := new(big.Rat).Mul(r, big.NewRat(FS, 1))
+			if sc.IsInt() {
+				s = coqBig(sc.Num())
+			}
+		}
+		rows = append(rows, fmt.Sprintf("(%d, (%s, %s))", b, coqCount(row, "count(*)"), s))
+	}
+	return fmt.Sprintf("(%d, %d, %d, %s,\n    %s)", q.Start, q.End, uint64(ds.SpanS)*1000, vhlib.CoqList(evs), vhlib.CoqList(rows)), true
+}
+
+// ---------- FindTimeRangeBucket driven directly ----------
+func realBucket(start, end, step, ts uint64) (b uint64, ok bool) {
+	defer func() {
+		if r := recover(); r != nil {
+			ok = false
+		}
+	}()
+	rg := aggregations.GenerateTimeRangeBuckets(&structs.TimeBucket{StartTime: start, EndTime: end, IntervalMillis: step})
+	return aggregations.FindTimeRangeBucket(rg, ts), true
+}
+
+func bucketCases(r *vhlib.Rng, sum *vhlib.Summary, out string, n int) {
+	var items []string
+	shard := 0
+	flush := func() {
+		if len(items) == 0 {
+			return
+		}
+		defs := "Open Scope Z_scope.\nDefinition cases : list (Z * Z * Z * Z * option Z) := " + vhlib.CoqListNL(items) + ".\n"
+		sum.WriteCaseFile(out, fmt.Sprintf("cases_c04_bucket_%d", shard), "From SigM Require Import Base Bucket AggCheck.\n", defs, "check_buckets cases 0", len(items))
+		items = nil
+		shard++
+	}
+	steps := []uint64{1, 2, 3, 7, 10, 999, 1000, 1001, 4000, 60000, 3600000, 86400000, 2592000000, 1 << 32, 1<<63 + 5}
+	for i := 0; i < n; i++ {
+		var start, end, step, ts uint64
+		step = vhlib.Pick(r, steps)
+		if r.Chance(30) {
+			step = uint64(r.Range(1, 100000))
+		}
+		switch r.Intn(6) {
+		case 0: // realistic epoch range
+			start = T0 + uint64(r.Range(0, 100000))
+			end = start + uint64(r.Range(0, 10000000))
+		case 1: // tiny numbers: end - step wraps
+			start = uint64(r.Range(0, 50))
+			end = start + uint64(r.Range(0, 50))
+		case 2: // near 2^64
+			start = math.MaxUint64 - uint64(r.Range(0, 1000000))
+			end = start + uint64(r.Range(0, 2000000)) // may wrap
+		case 3:
+			start, end = r.U64(), r.U64()
+		case 4: // aligned range
+			start = T0
+			end = start + step*uint64(r.Range(0, 50))
+		default:
+			start = uint64(r.Range(0, 1000)) * 1000
+			end = start + uint64(r.Range(1, 100))*step
+		}
+		switch r.Intn(8) {
+		case 0:
+			ts = start
+		case 1:
+			ts = end
+		case 2:
+			ts = end - 1
+		case 3:
+			ts = start - 1
+		case 4:
+			ts = end + 1
+		case 5:
+			ts = r.U64()
+		default:
+			if end > start {
+				ts = start + r.U64()%(end-start)
+			} else {
+				ts = start + uint64(r.Range(0, 100))
+			}
+		}
+		if i%97 == 0 {
+			step = 0 // integer divide by zero inside the range
+		}
+		b, ok := realBucket(start, end, step, ts)
+		items = append(items, fmt.Sprintf("(%d, %d, %d, %d, %s)", start, end, step, ts, vhlib.CoqOpt(ok, strconv.FormatUint(b, 10))))
+		sum.Eval(fmt.Sprintf("bucket/%d/%d/%d/%d", start, end, step, ts), ts >= start && ts < end)
+		switch {
+		case ts < start:
+			sum.Count("bucket_direct/before_start")
+		case ts == end:
+			sum.Count("bucket_direct/at_end")
+		case ts > end:
+			sum.Count("bucket_direct/after_end")
+		default:
+			sum.Count("bucket_direct/inside")
+			// oracle for the half-open range (no wrap-around inside): contains ts, aligned
+			if ok && step > 0 && end >= start && !(b <= ts && ts-b < step && (b-start)%step == 0) {
+				sum.Fail("find_bucket_does_not_contain_ts", fmt.Sprintf("start=%d end=%d step=%d ts=%d -> %d", start, end, step, ts, b),
+					map[string]uint64{"start": start, "end": end, "step": step, "ts": ts, "bucket": b})
+			}
+		}
+		if len(items) >= 1000 {
+			flush()
+		}
+	}
+	flush()
+}
+
+func genJobs(r *vhlib.Rng, thorough bool) []*job {
+	nMain, nKnown := 26, 1
+	if thorough {
+		nMain, nKnown = 700, 12
+	}
+	var jobs []*job
+	for i := 0; i < nMain; i++ {
+		jobs = append(jobs, &job{ds: genMain(r.Fork(), thorough, false)})
+	}
+	for i := 0; i < 2*nKnown+1; i++ {
+		jobs = append(jobs, &job{ds: genMain(r.Fork(), thorough, true)})
+	}
+	for _, cl := range knownClasses {
+		for i := 0; i < nKnown; i++ {
+			jobs = append(jobs, &job{ds: genKnown(r.Fork(), cl)})
+		}
+	}
+	return jobs
+}
+
+type job struct {
+	ds  *Dataset
+	obs []WObs
+	err error
+}
 
 func main() {
 	if len(os.Args) >= 5 && os.Args[1] == "worker" {
 		workerMain(os.Args[2], os.Args[3], os.Args[4])
 		return
 	}
-	fmt.Println("probe only")
+	if len(os.Args) >= 4 && os.Args[1] == "dump" {
+		seed, _ := strconv.ParseUint(os.Args[2], 10, 64)
+		idx, _ := strconv.Atoi(os.Args[3])
+		jobs := genJobs(vhlib.NewRng(seed), len(os.Args) > 4 && os.Args[4] == "thorough")
+		ds := jobs[idx].ds
+		obs, err := runDataset("/tmp/C04_dump", ds)
+		fmt.Println("stream", ds.Stream, "f", ds.FKind, "g", ds.GKind, "range", ds.Start, ds.End, "span", ds.SpanS, "err", err)
+		for b, m := range ds.Modes {
+			for _, i := range batchIdx(ds.Evs, b) {
+				fmt.Printf("  batch %d (%s) seg %d: %s\n", b, m, ds.Evs[i].Seg, ds.Evs[i].doc())
+			}
+		}
+		for qi, q := range ds.Queries {
+			if err != nil {
+				break
+			}
+			fmt.Println("Q:", q.Text, "err:", obs[qi].Err)
+			for _, row := range obs[qi].Rows {
+				b, _ := json.Marshal(row.M)
+				fmt.Printf("    %q %s\n", row.G, b)
+			}
+		}
+		_ = os.RemoveAll("/tmp/C04_dump")
+		return
+	}
+	cfg := vhlib.ParseFlags()
+	sum := vhlib.NewSummary("one case = one stats / stats-by / timechart / bin query over a generated dataset run by the real code in a worker process " +
+		"(fresh store per dataset; segmentations: one batch, flush every j events, rotate every j events, random mix), or one direct call of FindTimeRangeBucket; " +
+		"non-trivial = the query returned at least one result row (direct call: timestamp inside the range); distinct by (dataset, query text) / by argument tuple; " +
+		"streams: main (kept off the known-defect inputs) and one stream per known defect class; values are small integers and dyadic rationals so that float sums are exact")
+	r := vhlib.NewRng(cfg.Seed)
+	nBucket := 4000
+	if cfg.Thorough() {
+		nBucket = 40000
+	}
+	jobs := genJobs(r, cfg.Thorough())
+	par := 8
+	sem := make(chan struct{}, par)
+	var wg sync.WaitGroup
+	for i, j := range jobs {
+		wg.Add(1)
+		sem <- struct{}{}
+		go func(i int, j *job) {
+			defer wg.Done()
+			defer func() { <-sem }()
+			dir := filepath.Join(cfg.Out, fmt.Sprintf("run%d", i))
+			j.obs, j.err = runDataset(dir, j.ds)
+			if j.err != nil { // re-run alone once (load)
+				time.Sleep(200 * time.Millisecond)
+				j.obs, j.err = runDataset(dir, j.ds)
+			}
+			_ = os.RemoveAll(dir)
+		}(i, j)
+	}
+	wg.Wait()
+
+	var mu sync.Mutex
+	var sCases, gCases, tCases []string
+	shard := 0
+	flush := func(force bool) {
+		if len(sCases) >= 60 || (force && len(sCases) > 0) {
+			defs := "Open Scope Z_scope.\nDefinition cases : list (list (list event) * obs_stats) := " + vhlib.CoqListNL(sCases) + ".\n"
+			sum.WriteCaseFile(cfg.Out, fmt.Sprintf("cases_c04_stats_%d", shard), "From SigM Require Import Base Agg Bucket AggCheck.\nFrom Coq Require Import QArith.\n", defs, "check_stats cases 0", len(sCases))
+			sCases = nil
+			shard++
+		}
+		if len(gCases) >= 40 || (force && len(gCases) > 0) {
+			defs := "Open Scope Z_scope.\nDefinition cases : list (list seg_events * list (str * obs_group)) := " + vhlib.CoqListNL(gCases) + ".\n"
+			sum.WriteCaseFile(cfg.Out, fmt.Sprintf("cases_c04_group_%d", shard), "From SigM Require Import Base Agg Bucket AggCheck.\nFrom Coq Require Import QArith.\n", defs, "check_groups cases 0", len(gCases))
+			gCases = nil
+			shard++
+		}
+		if len(tCases) >= 60 || (force && len(tCases) > 0) {
+			defs := "Open Scope Z_scope.\nDefinition cases : list (Z * Z * Z * list (Z * Z) * list (Z * (Z * Z))) := " + vhlib.CoqListNL(tCases) + ".\n"
+			sum.WriteCaseFile(cfg.Out, fmt.Sprintf("cases_c04_tc_%d", shard), "From SigM Require Import Base Agg Bucket AggCheck.\n", defs, "check_timecharts cases 0", len(tCases))
+			tCases = nil
+			shard++
+		}
+	}
+	for i, j := range jobs {
+		sum.Count("dataset/" + j.ds.Stream)
+		if j.err != nil {
+			// the worker died or hung: every query of the dataset failed "merely because" of its input
+			sum.Fail("stats_fails_on_sparse_group_field", fmt.Sprintf("dataset %d (%s f=%s g=%s): worker failed: %v", i, j.ds.Stream, j.ds.FKind, j.ds.GKind, j.err), j.ds)
+			continue
+		}
+		sum.Count("fkind/" + j.ds.FKind)
+		sum.Count("gkind/" + j.ds.GKind)
+		sum.Count(fmt.Sprintf("batches/%d", min(len(j.ds.Modes), 8)))
+		for qi, q := range j.ds.Queries {
+			c := &checker{sum: sum, mu: &mu, ds: j.ds, di: i, q: q}
+			c.evalQuery(j.obs[qi])
+			switch q.Kind {
+			case "stats":
+				if s, ok := coqStatsCase(j.ds, q, j.obs[qi]); ok {
+					sCases = append(sCases, s)
+				}
+			case "group":
+				// the model covers numeric / absent measure values (string-typed numbers: oracle only)
+				if q.Expect == "groupby_sum_skips_string_typed_numbers" || q.Expect == "group_key_split_by_stored_type" {
+					break
+				}
+				if s, ok := coqGroupCase(j.ds, q, j.obs[qi]); ok {
+					gCases = append(gCases, s)
+				}
+			case "tc":
+				if s, ok := coqTimechartCase(j.ds, q, j.obs[qi]); ok {
+					tCases = append(tCases, s)
+				}
+			}
+			flush(false)
+		}
+		if i%9 == 0 {
+			sum.Sample(map[string]interface{}{"stream": j.ds.Stream, "fkind": j.ds.FKind, "gkind": j.ds.GKind, "events": len(j.ds.Evs), "batches": j.ds.Modes,
+				"first_docs": []string{j.ds.Evs[0].doc(), j.ds.Evs[len(j.ds.Evs)-1].doc()}, "first_query": j.ds.Queries[0].Text})
+		}
+	}
+	flush(true)
+	bucketCases(r.Fork(), sum, cfg.Out, nBucket)
+	sum.Notes = append(sum.Notes,
+		"float64 values are dyadic rationals with 10 fractional bits and small magnitude: sums are exact; avg compared with relative tolerance 1e-12 (oracle) / 2^-40 (Coq)",
+		"dc: exact below 50 distinct values, 2 % above (HLL log2m=16, observed only); skipped when a number occurs in two forms or next to non-numeric strings (count dc_unchecked_mixed_forms)",
+		"percentiles: rank window +-1 rank +-1 % (t-digest, observed only)",
+		"group / bucket rows are compared as sets; list() as a multiset")
+	sum.Write(cfg.Out)
 }
